@@ -568,10 +568,15 @@ class Path(Expression):
     def __str__(self) -> str:
         it = iter(self.path)
         root = next(it)
-        if isinstance(root, str) and not RE_PROPERTY.fullmatch(root):
-            buf = [f"[{root!r}]"]
+        if isinstance(root, str):
+            if RE_PROPERTY.fullmatch(root):
+                buf = [root]
+            else:
+                quote = _quote_char(root)
+                buf = [f"[{quote}{_escape_string(root, quote)}{quote}]"]
         else:
-            buf = [str(root)]
+            # A nested path or an index in brackets.
+            buf = [f"[{root}]"]
         for segment in it:
             if isinstance(segment, Path):
                 buf.append(f"[{segment}]")
@@ -579,7 +584,8 @@ class Path(Expression):
                 if RE_PROPERTY.fullmatch(segment):
                     buf.append(f".{segment}")
                 else:
-                    buf.append(f"[{segment!r}]")
+                    quote = _quote_char(segment)
+                    buf.append(f"[{quote}{_escape_string(segment, quote)}{quote}]")
             else:
                 buf.append(f"[{segment}]")
         return "".join(buf)
